@@ -467,6 +467,30 @@ theorem matern52Grad_matrix_gen_eq_entry (n1 n2 d : ℕ) (X1 X2 : List (List ℝ
       · subst hkl; simp only [if_true]; push_cast; ring
       · simp only [if_neg hkl]; push_cast; ring
 
+/-- `MultitaskKernel.forward`: the Kronecker product `K_data ⊗ K_task` and **its diag path** in the per-point interleaved
+layout — entry `(i·T+s, j·T+t)` of the full matrix is `k_data(x1ᵢ, x2ⱼ)·K_task[s,t]`, entry `i·T+s` of `forward(diag=True)` is
+`k_data(x1ᵢ, x2ᵢ)·K_task[s,s]` (the point index of a diagonal position is `r / T`, never `r mod n`), every `n`, `T`, `d`,
+every data kernel (stationary or not) -/
+theorem multitask_gen_eq_spec (data : List ℝ → List ℝ → ℝ) (n1 n2 d T : ℕ) (X1 X2 KT : List (List ℝ)) (i j s t : ℕ)
+    (hs : s < T) (ht : t < T) (hx1 : (X1.getD i []).length = d) (hx2 : (X2.getD j []).length = d)
+    (hx2i : (X2.getD i []).length = d) :
+    multitaskMatrix data n1 n2 d T X1 X2 KT (gradIdx T i s) (gradIdx T j t)
+      = data (X1.getD i []) (X2.getD j []) * nth2 KT s t ∧
+    multitaskDiag data n1 n2 d T X1 X2 KT (gradIdx T i s) = data (X1.getD i []) (X2.getD i []) * nth2 KT s s := by
+  have hd : ∀ (i s : ℕ), s < T → (i * T + s) / T = i ∧ (i * T + s) % T = s := by
+    intro i s hs
+    constructor
+    · rw [Nat.mul_comm, Nat.mul_add_div (by omega)]; simp [Nat.div_eq_of_lt hs]
+    · rw [Nat.mul_comm, Nat.mul_add_mod]; exact Nat.mod_eq_of_lt hs
+  have row : ∀ (X : List (List ℝ)) (i : ℕ), (X.getD i []).length = d → tab d (fun k => nth2 X i k) = X.getD i [] := by
+    intro X i h
+    have := tab_nth (X.getD i [])
+    rw [h] at this
+    exact this
+  constructor
+  · simp only [multitaskMatrix, gradIdx, (hd i s hs).1, (hd i s hs).2, (hd j t ht).1, (hd j t ht).2, row X1 i hx1, row X2 j hx2]
+  · simp only [multitaskDiag, gradIdx, (hd i s hs).1, (hd i s hs).2, row X1 i hx1, row X2 i hx2i]
+
 end generatedAxes
 
 /-! ### sums, products, scalings, structure wrappers (hold for every scalar type, also the executed `Float`) -/
